@@ -1389,6 +1389,15 @@ class Analyzer:
         # local callee?
         if results is None and (callee.get("resolved_local") or (callee.get("resolved") is None and callee.get("local"))):
             key = self.local_key(callee, f)
+            if key is not None and "{closure" in key and callee.get("path", "").startswith("std::ops::Fn") and len(args) == 2 \
+                    and isinstance(args[1], Enum) and args[1].adt == "(tuple)":
+                # `f(x, y)` on a closure value: the body takes the environment and the arguments one by one, the call site a tuple
+                n_ = self.fns[key].get("arg_count", 2) - 1
+                args = [args[0]] + [args[1].fields.get((0, i), Unk()) for i in range(n_)]
+                if isinstance(args[0], Enum) and self.fns[key]["locals"][1].get("k") == "ref":
+                    cell_ = fresh("obj"); st.mem[cell_] = args[0]; args[0] = Ref(cell_)
+                elif isinstance(args[0], Ref) and self.fns[key]["locals"][1].get("k") != "ref":
+                    args[0] = st.mem.get(args[0].loc, args[0])
             if key is not None:
                 if (self.havoc_threshold is not None and self.closure_size(key) > self.havoc_threshold) or any(path.endswith(o) for o in self.opaque):
                     results = self.havoc_call(st, args, dest["ty"], site)
@@ -1421,6 +1430,8 @@ class Analyzer:
         out = []
         saved = self.record; self.record = False
         self.fn_stack.append(f)
+        inner = None
+        blocks_ = f["blocks"]
         for hb in sorted(heads):
             arrivals = []
             head_states = [(k, s) for k, s in instate.items() if k[0] == hb]
@@ -1439,11 +1450,40 @@ class Analyzer:
                     if tb == "ret" or ts.bottom: continue
                     if tb == hb:
                         arrivals.append((k[1], H, ts)); continue
-                    if tb in heads:   # inner/other loop: give up precise propagation, use converged state
+                    if tb in heads:
+                        # an inner loop: step over it - continue behind each of its exits with every cell the inner loop can
+                        # assign forgotten (sound; precise enough when the inner loop leaves the outer loop's counters alone)
+                        if inner is None:
+                            from analysis import facts as _F
+                            try: inner = _F.natural_loops(f)
+                            except Exception: inner = {}
+                        body = inner.get(tb)
+                        if not body or hb in body or (tb, "over") in local:
+                            continue
+                        local[(tb, "over")] = True
+                        killed = set()
+                        for bi_ in body:
+                            for st_ in blocks_[bi_]["stmts"]:
+                                if st_["k"] == "assign": killed.add(st_["place"]["local"])
+                            tt_ = blocks_[bi_]["term"]
+                            if tt_["k"] == "call": killed.add(tt_["dest"]["local"])
+                        ts2 = ts.copy()
+                        for l_ in killed:
+                            pre_ = f"{fr}._{l_}"
+                            for k_ in [k_ for k_ in ts2.mem if k_ == pre_ or k_.startswith(pre_ + ".") or k_.startswith(pre_ + "#")]:
+                                if not k_.endswith("#ty"): ts2.mem.pop(k_, None)
+                        for bi_ in sorted(body):
+                            for m_ in succ[bi_]:
+                                if m_ not in body and not blocks_[m_]["cleanup"]:
+                                    work.append((m_, ts2.copy()))
                         continue
                     for (t2, s2) in self.exec_block(f, fr, tb, ts, ""):
                         work.append((t2, s2))
             if not arrivals:
+                if self._slice_iter_loop(f, hb, succ):
+                    out.append((hb, "slice iterator", "driven by a slice iterator: one iteration per element, at most the length of the slice (which is finite)",
+                                dict(head=hb, measure="slice iterator", step=1, kind="slice-iter", text="one iteration per element of a slice")))
+                    continue
                 out.append((hb, None, "no back-edge arrival (loop exits on first pass or inner loop)")); continue
             # candidate cells: changed in some arrival
             cand = set()
@@ -1537,11 +1577,45 @@ class Analyzer:
                 if best is None or score < best[0]:
                     best = (score, cand_res)
             if best is None:
+                si = self._slice_iter_loop(f, hb, succ)
+                if si:
+                    out.append((hb, "slice iterator", "driven by a slice iterator: one iteration per element, at most the length of the slice (which is finite)",
+                                dict(head=hb, measure="slice iterator", step=1, kind="slice-iter", text="one iteration per element of a slice")))
+                    continue
                 out.append((hb, None, f"no ranking among {cand}")); continue
             out.append((hb, best[1]["measure"], best[1]["text"], best[1]))
         self.fn_stack.pop()
         self.record = saved
         return out
+
+    def _slice_iter_loop(self, f, hb, succ):
+        """Is the loop with head hb driven by `slice::Iter::next()` (directly or through Enumerate / Copied / Cloned): the call sits on
+        every cycle through the head and its `None` answer leaves the loop?  Such a loop runs once per element of a finite slice."""
+        from analysis import facts as _F
+        try:
+            body = _F.natural_loops(f).get(hb)
+            dom = _F.dominators(f)
+        except Exception:
+            return False
+        if not body:
+            return False
+        blocks = f["blocks"]
+        latches = [b for b in body if hb in succ[b]]
+        for bi in sorted(body):
+            t = blocks[bi]["term"]
+            if t["k"] != "call": continue
+            c = t["callee"]; path = (c.get("resolved_full") or c.get("full") or c.get("resolved") or c.get("path") or "")
+            if not path.endswith("as std::iter::Iterator>::next") and "Iterator>::next" not in path: continue
+            if "slice::Iter<" not in path and "slice::Iter " not in path and "slice::IterMut<" not in path and "slice::Chunks" not in path: continue
+            if not all(bi in dom.get(l, ()) or bi == l for l in latches): continue
+            nxt = t.get("target")
+            if nxt is None: continue
+            sw = blocks[nxt]["term"]
+            if sw["k"] != "switch": continue
+            none_edge = next((tb for v, tb in sw["targets"] if v == 0), None)
+            if none_edge is not None and none_edge not in body:
+                return True
+        return False
 
     def closure_size(self, key):
         if key in self._csize: return self._csize[key]
@@ -1710,6 +1784,17 @@ def m_opt_or(an, st, args, dty, site, callee, t):
     s0 = st.copy(); s0.C.add(eq(a.discr, 0))
     if not s0.C.infeasible(): out.append((s0, b))
     return out
+
+def m_as_deref(an, st, args, dty, site, callee, t):
+    """Option<Vec<u8>>::as_deref / as_ref on an owned buffer: the same presence, the payload seen as a slice of some buffer"""
+    a = args[0]
+    if isinstance(a, Ref): a = st.mem.get(a.loc, a)
+    if not isinstance(a, Enum): return m_opaque(an, st, args, dty, site, callee, t)
+    cell = fresh("obj")
+    ln = st.fresh_int({"k": "int", "bits": 64, "signed": False}, "dl")
+    st.C.add(le(ln.e, (1 << 63) - 1))
+    st.mem[cell + "#len"] = ln
+    return ret1(st, Enum(dty.get("adt", "std::option::Option"), a.discr, {(1, 0): Slice(cell, 0, ln.e)}))
 
 def m_unwrap_or(an, st, args, dty, site, callee, t):
     a, b = args
@@ -2102,6 +2187,7 @@ MODELS = {
     "std::option::Option::<T>::is_none": m_opt_is(False),
     "std::option::Option::<T>::or": m_opt_or,
     "std::option::Option::<T>::unwrap_or": m_unwrap_or,
+    "std::option::Option::<T>::as_deref": m_as_deref,
     "std::result::Result::<T, E>::unwrap_or": m_unwrap_or,
     "std::option::Option::<T>::unwrap": m_unwrap,
     "std::option::Option::<T>::unwrap_or_else": m_unwrap_or_else,
